@@ -3137,12 +3137,26 @@ def wrapper_template(fns, fname, branch_fn, cfgbits):
     ident = lambda n: [("id", n, 0)]
     io = ("some", ident("invalidate_on__")) if has_io else None
     ci = ("some", ident("cache_if__")) if has_ci else None
-    inv_check = gi.call("generate_invalidation_check", [io])
-    cache_cond = gi.call("generate_cache_condition", [ci, has_mm, is_result])
     f = fns.get(branch_fn)
     if f is None:
         raise Untranslatable(f"{fname}: `{branch_fn}` is missing")
     body = body_of(f)
+    # the branch generator's OWN `let`s decide what is spliced: `has_max_memory` (a textual test on the max_memory tokens),
+    # `invalidation_check`, `cache_condition` — evaluated from the source, with the configuration as the function's arguments
+    env0 = {"max_memory_expr": ([("id", "Some", 0), ("p", "(", 0), ("id", "max_memory__", 0), ("p", ")", 0)] if has_mm else [("id", "None", 0)]),
+            "is_result": is_result, "invalidate_on": io, "cache_if": ci, "attrs.invalidate_on": io, "attrs.cache_if": ci}
+    wanted = ["has_max_memory", "invalidation_check", "cache_condition"]
+    seen = []
+    for st in body[1]:
+        if st[0] == "let" and st[1][0] == "pid" and st[1][1] in wanted:
+            env0[st[1][1]] = gi.ev(st[3], env0)
+            seen.append(st[1][1])
+    if seen != wanted:
+        raise Untranslatable(f"{fname}: `{branch_fn}` no longer computes {wanted} in this order (found {seen})")
+    if env0["has_max_memory"] is not has_mm:
+        raise Untranslatable(f"{fname}: `{branch_fn}`: `has_max_memory` is {env0['has_max_memory']} for the max_memory tokens "
+                             f"`{' '.join(t[1] for t in env0['max_memory_expr'])}`")
+    inv_check, cache_cond = env0["invalidation_check"], env0["cache_condition"]
     if not (body[2] is not None and body[2][0] == "macro" and body[2][1] == "quote"):
         raise Untranslatable(f"{fname}: `{branch_fn}` no longer ends in a `quote!` template")
     toks = list(body[2][2])
